@@ -10,8 +10,9 @@ Line-protocol driver over `QbiceVerif.Model.TinyLfu` (property C16).  One output
 Answers: the call's result, followed by ` ev k:b k:b …` = the questions the removal closure asked
 the listener during the call (b = 1 pinned / kept, 0 = evicted).  A panicking call answers `panic`
 (the reason goes to stderr as `panic-reason <line> <site>`); every later line up to the next `new`
-answers `dead`.  Malformed lines answer `bad-op`.  `--fix` runs the model with the repaired `Policy::unpin` (F4, = the code as it is now); `--fix-trim` adds the
-proposed repair of F15 (whole-region Poll trim).
+answers `dead`.  Malformed lines answer `bad-op`.  `--fix` runs the model with the repaired `Policy::unpin` (F4, = the code as it is now).  The Poll trim is the
+repaired one (F15: the whole pinned region is visited, = the code as it is now) by default; `--no-fix-trim` (or
+`nofixtrim`) runs the code before that fix (`--fix-trim` is accepted and changes nothing).
 -/
 import QbiceVerif.Model.TinyLfu
 open QbiceVerif.TinyLfu
@@ -142,5 +143,5 @@ def main (args : List String) : IO Unit := do
   let hin ← IO.getStdin
   let hout ← IO.getStdout
   let herr ← IO.getStderr
-  loop (args.contains "--fix") (args.contains "--fix-trim") hin hout herr none 1
+  loop (args.contains "--fix") (!(args.contains "--no-fix-trim" || args.contains "nofixtrim")) hin hout herr none 1
   hout.flush
